@@ -54,7 +54,6 @@ type Process struct {
 	waitForPassCtx      context.Context
 	waitForPassCancelFn context.CancelFunc
 	mtxStopFn           sync.Mutex
-	waitForStoppedCtx   context.Context
 	waitForStoppedFn    context.CancelFunc
 	procColor           func(a ...interface{}) string
 	noColor             func(a ...interface{}) string
@@ -161,6 +160,7 @@ loop:
 
 		p.waitForStdOutErr()
 		_ = p.command.Wait()
+		p.commandExited()
 		p.Lock()
 		p.setExitCode(p.command.ExitCode())
 		p.Unlock()
@@ -417,8 +417,8 @@ func (p *Process) stopProcess(cancelReadinessFuncs bool) error {
 		p.runCancelFn()
 	}
 	// test and change in one step: the process may end, and record its final state, at any moment
-	if !p.compareAndSetState(types.ProcessStateTerminating,
-		types.ProcessStateRunning, types.ProcessStateLaunched, types.ProcessStateLaunching) {
+	cmd, ok := p.beginStop()
+	if !ok {
 		log.Debug().Msgf("process %s is in state %s not shutting down", p.getName(), p.getStatusName())
 		// prevent pending process from running
 		if p.stoppedBeforeLaunch() {
@@ -436,37 +436,67 @@ func (p *Process) stopProcess(cancelReadinessFuncs bool) error {
 		p.readyLogCancelFn(fmt.Errorf("process %s was shut down", p.getName()))
 	}
 	if isStringDefined(p.procConf.ShutDownParams.ShutDownCommand) {
-		return p.doConfiguredStop(p.procConf.ShutDownParams)
+		return p.doConfiguredStop(cmd, p.procConf.ShutDownParams)
 	}
-	err := p.command.Stop(p.procConf.ShutDownParams.Signal, p.procConf.ShutDownParams.ParentOnly)
+	err := cmd.Stop(p.procConf.ShutDownParams.Signal, p.procConf.ShutDownParams.ParentOnly)
 	if err != nil {
 		log.Error().Err(err).Msgf("terminating %s failed", p.getName())
 	}
 	if p.procConf.ShutDownParams.ShutDownTimeout != UndefinedShutdownTimeoutSec {
-		return p.forceKillOnTimeout()
+		return p.forceKillOnTimeout(cmd)
 	}
 	return err
 }
 
-func (p *Process) forceKillOnTimeout() error {
+// beginStop moves a launched process to Terminating and returns the command that is to be
+// stopped: the process may be relaunched (restart policy) with a new command before the
+// stop has run its course, and the kill that follows a time-out is meant for the old one.
+func (p *Process) beginStop() (command.Commander, bool) {
+	p.stateMtx.Lock()
+	defer p.stateMtx.Unlock()
+	if p.superseded.Load() {
+		return nil, false
+	}
+	switch p.procState.Status {
+	case types.ProcessStateRunning, types.ProcessStateLaunched, types.ProcessStateLaunching:
+		p.procState.Status = types.ProcessStateTerminating
+		p.onStateChange(types.ProcessStateTerminating)
+		return p.command, true
+	}
+	return nil, false
+}
+
+// commandExited disarms the kill timer of a stop that waits for the command to exit
+func (p *Process) commandExited() {
 	p.mtxStopFn.Lock()
-	p.waitForStoppedCtx, p.waitForStoppedFn = context.WithTimeout(context.Background(), time.Duration(p.procConf.ShutDownParams.ShutDownTimeout)*time.Second)
+	if p.waitForStoppedFn != nil {
+		p.waitForStoppedFn()
+		p.waitForStoppedFn = nil
+	}
 	p.mtxStopFn.Unlock()
-	<-p.waitForStoppedCtx.Done()
-	err := p.waitForStoppedCtx.Err()
+}
+
+func (p *Process) forceKillOnTimeout(cmd command.Commander) error {
+	ctx, cancel := context.WithTimeout(context.Background(), time.Duration(p.procConf.ShutDownParams.ShutDownTimeout)*time.Second)
+	defer cancel()
+	p.mtxStopFn.Lock()
+	p.waitForStoppedFn = cancel
+	p.mtxStopFn.Unlock()
+	<-ctx.Done()
+	err := ctx.Err()
 	switch {
 	case errors.Is(err, context.Canceled):
 		return nil
 	case errors.Is(err, context.DeadlineExceeded):
 		log.Debug().Msgf("process failed to shut down within %d seconds, sending %d", p.procConf.ShutDownParams.ShutDownTimeout, syscall.SIGKILL)
-		return p.command.Stop(int(syscall.SIGKILL), p.procConf.ShutDownParams.ParentOnly)
+		return cmd.Stop(int(syscall.SIGKILL), p.procConf.ShutDownParams.ParentOnly)
 	default:
 		log.Error().Err(err).Msgf("terminating %s with timeout %d failed", p.getName(), p.procConf.ShutDownParams.ShutDownTimeout)
 		return err
 	}
 }
 
-func (p *Process) doConfiguredStop(params types.ShutDownParams) error {
+func (p *Process) doConfiguredStop(procCmd command.Commander, params types.ShutDownParams) error {
 	timeout := params.ShutDownTimeout
 	if timeout == UndefinedShutdownTimeoutSec {
 		timeout = DefaultShutdownTimeoutSec
@@ -483,7 +513,7 @@ func (p *Process) doConfiguredStop(params types.ShutDownParams) error {
 	if err := cmd.Run(); err != nil {
 		// the process termination timedout and it will be killed
 		log.Error().Msgf("terminating %s with timeout %d failed - %s", p.getName(), timeout, err.Error())
-		return p.command.Stop(int(syscall.SIGKILL), false)
+		return procCmd.Stop(int(syscall.SIGKILL), false)
 	}
 	return nil
 }
@@ -522,12 +552,7 @@ func (p *Process) finish(state string) {
 	if isStringDefined(p.procConf.LogLocation) {
 		p.logger.Close()
 	}
-	p.mtxStopFn.Lock()
-	if p.waitForStoppedFn != nil {
-		p.waitForStoppedFn()
-		p.waitForStoppedFn = nil
-	}
-	p.mtxStopFn.Unlock()
+	p.commandExited()
 	p.stopProbes()
 	if p.readyProber != nil {
 		p.readyCancelFn()
